@@ -128,7 +128,8 @@ def check_hex_variants(ctx, t, a, rng):
         except Exception as exc:
             ctx.fail('from_hex(sep) raised', t, lambda: case(['from_hex', sep]),
                      f'{type(exc).__name__}: {exc}')
-    for ws in ('\n', '\t', '  ', '\r\n'):
+    for ws in ('\n', '\t', '  ', '\r\n', '\x0b', '\x0c', '\x1c', '\x1f', '\x85', '\xa0', '\u2009', '\u2028', '\u3000',
+               ' \xa0\n'):
         text = ws.join('%02x' % x for x in ref)     # lower case too
         try:
             d = Message.from_hex(text)
@@ -137,6 +138,26 @@ def check_hex_variants(ctx, t, a, rng):
         except Exception as exc:
             ctx.fail('from_hex(ws) raised', t, lambda: case(['ws', ws]),
                      f'{type(exc).__name__}: {exc}')
+
+
+def check_containers(ctx, t, a):
+    """from_bytes accepts any sequence of integers: lists, tuples, bytes-like objects and
+    buffer-protocol objects whose items are wider than a byte."""
+    import array
+    import collections
+    m = Message(t, **a)
+    ref = midi1.encode(t, a)
+    conts = [('tuple', tuple(ref)), ('array-B', array.array('B', ref)), ('array-i', array.array('i', ref)),
+             ('array-H', array.array('H', ref)), ('array-q', array.array('q', ref)),
+             ('memoryview', memoryview(bytes(ref))), ('range-like list subclass', type('L', (list,), {})(ref))]
+    for name, c in conts:
+        case = lambda: {'kind': 'container', 'type': t, 'attrs': a, 'container': name}  # noqa: E731
+        try:
+            d = Message.from_bytes(c, time=3)
+            ctx.check('from_bytes(container)==m', d == m.copy(time=3) and _eq_typed(d, t, a, 3), 'container:' + name,
+                      case, lambda: repr(d)[:160])
+        except Exception as exc:
+            ctx.fail('from_bytes(container)==m', 'container-raised:' + name, case, f'{type(exc).__name__}: {exc}')
 
 
 def phase_a(ctx):
@@ -155,6 +176,8 @@ def phase_a(ctx):
         if i % 9973 == sh:
             ctx.put_sample({'type': t, **a, 'bytes': midi1.encode(t, a)})
             check_hex_variants(ctx, t, dict(a), ctx.rng)
+            check_containers(ctx, t, dict(a))
+    check_containers(ctx, 'sysex', {'data': tuple(range(100))})
     ctx.count('cases', sum(per_type.values()))
     ctx.nontrivial(None, sum(per_type.values()))
     ctx.extra('messages_per_type', per_type)
@@ -287,6 +310,9 @@ def replay(ctx, case):
         check_message(ctx, case['type'], a, case['ti'], case['tf'])
     elif k == 'hexvar':
         check_hex_variants(ctx, case['type'], a, ctx.rng)
+    elif k == 'container':
+        check_containers(ctx, case['type'], a)
+        return
     elif k == 'history':
         history(ctx, case['type'], case['steps'], case['seed'])
         return
